@@ -188,7 +188,8 @@ def run_case(c) -> dict:
             if c["ser"] == "compact":
                 tok = jwe.encrypt_compact(hdr, pt, jk, algorithms=jweplan.ALL_NAMES)
             else:
-                o = jwe.FlattenedJSONEncryption(hdr, pt)
+                # JSON serialization: now and then with an AAD member and a shared unprotected header next to the compressed content
+                o = jwe.FlattenedJSONEncryption(hdr, pt, {"cty": "text"} if c["seed"] % 3 == 0 else None, b"additional data" if c["seed"] % 4 < 2 else None)
                 o.add_recipient(None, jk)
                 tok = jwe.encrypt_json(o, None, algorithms=jweplan.ALL_NAMES)
                 if c["seed"] % 2:
